@@ -7,7 +7,8 @@
  *    C <state ids>     configuration after a call of uscxml_step() that took a micro step
  *    H <state ids>     ctx->history after that step
  *    R <code>          return code of uscxml_step()
- * The datamodel is the integer fragment of the generators (x + 1, x - 1, x == 2, x < 2, In('s')/config[s], not(..)/!(..)).
+ * The datamodel is the integer fragment of the generators (x + 1, x - 1, x == 2, x < 2, a or b, In('s')/config[s], not(..)/!(..)),
+ * integer arrays ({1,2,3}) for <foreach>, <script>v = expr</script> and _event.name.
  */
 #include <stdio.h>
 #include <stdlib.h>
@@ -23,6 +24,11 @@ static ev_t* iq[MAXQ]; static int iqh = 0, iqt = 0;
 static ev_t* eq[MAXQ]; static int eqh = 0, eqt = 0;
 static struct { char name[16]; long val; int set; } vars[16];
 static int nvars = 0;
+static struct { char name[16]; long v[16]; int n; } arrs[4];
+static int narrs = 0;
+static struct { const void* f; int arr; int cur; } fes[64];
+static int nfes = 0;
+static const char* cur_event = NULL;
 static uscxml_ctx ctx;
 static int failed_eval = 0;
 
@@ -84,10 +90,20 @@ static long sum(void) {
 	for (;;) { ws(); if (*P == '+') { P++; v += atom(); } else if (*P == '-') { P++; v -= atom(); } else break; }
 	return v;
 }
-static long expr(void) {
+static long cmp(void) {
 	long v = sum(); ws();
 	if (P[0] == '=' && P[1] == '=') { P += 2; return v == sum(); }
 	if (P[0] == '<') { P++; return v < sum(); }
+	return v;
+}
+static long expr(void) {
+	long v = cmp();
+	for (;;) {
+		ws();
+		if (P[0] == '|' && P[1] == '|') { P += 2; long w = cmp(); v = (v != 0) || (w != 0); }
+		else if (P[0] == 'o' && P[1] == 'r' && (P[2] == ' ' || P[2] == '(')) { P += 2; long w = cmp(); v = (v != 0) || (w != 0); }
+		else break;
+	}
 	return v;
 }
 static long eval(const char* s, int* err) { failed_eval = 0; P = s; long v = expr(); ws(); if (*P) failed_eval = 1; *err = failed_eval; return v; }
@@ -95,8 +111,8 @@ static long eval(const char* s, int* err) { failed_eval = 0; P = s; long v = exp
 static int err_exec(void) { push(iq, &iqt, "error.execution"); return USCXML_ERR_EXEC_CONTENT; }
 
 /* ---- callbacks ---- */
-static void* dequeue_internal(const uscxml_ctx* c) { if (iqh < iqt) { ev_t* e = iq[iqh++]; printf("E %s\n", e->name); return e; } return NULL; }
-static void* dequeue_external(const uscxml_ctx* c) { if (eqh < eqt) { ev_t* e = eq[eqh++]; printf("E %s\n", e->name); return e; } return NULL; }
+static void* dequeue_internal(const uscxml_ctx* c) { if (iqh < iqt) { ev_t* e = iq[iqh++]; printf("E %s\n", e->name); cur_event = e->name; return e; } return NULL; }
+static void* dequeue_external(const uscxml_ctx* c) { if (eqh < eqt) { ev_t* e = eq[eqh++]; printf("E %s\n", e->name); cur_event = e->name; return e; } return NULL; }
 
 static int tok_match(const char* descs, const char* name) {
 	/* Rec. 3.12.1: token-wise prefix, '*' matches all, trailing .* / . ignored */
@@ -117,7 +133,8 @@ static int raise_done_event(const uscxml_ctx* c, const uscxml_state* s, const us
 	char n[80]; snprintf(n, 80, "done.state.%s", s->name ? s->name : "?"); push(iq, &iqt, n); return USCXML_ERR_OK;
 }
 static int exec_log(const uscxml_ctx* c, const char* label, const char* ex) {
-	if (ex) { int err; long v = eval(ex, &err); if (err) return err_exec(); printf("L %s: %ld\n", label ? label : "", v); }
+	if (ex && strcmp(ex, "_event.name") == 0) { if (!cur_event) return err_exec(); printf("L %s: \"%s\"\n", label ? label : "", cur_event); }
+	else if (ex) { int err; long v = eval(ex, &err); if (err) return err_exec(); printf("L %s: %ld\n", label ? label : "", v); }
 	else printf("L %s\n", label ? label : "");
 	return USCXML_ERR_OK;
 }
@@ -137,17 +154,49 @@ static int exec_assign(const uscxml_ctx* c, const uscxml_elem_assign* a) {
 static int exec_init(const uscxml_ctx* c, const uscxml_elem_data* d) {
 	/* a block of <data> elements, terminated by an unset element */
 	while (USCXML_ELEM_DATA_IS_SET(d)) {
-		long* v = var(d->id, 1); int err = 0;
-		if (v) *v = d->expr ? eval(d->expr, &err) : 0;
+		if (d->expr && (d->expr[0] == '{' || d->expr[0] == '[') && narrs < 4) {
+			const char* q = d->expr + 1; int n = 0;
+			strncpy(arrs[narrs].name, d->id, 15);
+			while (*q && *q != '}' && *q != ']' && n < 16) { arrs[narrs].v[n++] = strtol(q, (char**)&q, 10); while (*q == ',' || *q == ' ') q++; }
+			arrs[narrs++].n = n;
+		} else {
+			long* v = var(d->id, 1); int err = 0;
+			if (v) *v = d->expr ? eval(d->expr, &err) : 0;
+		}
 		d++;
 	}
 	return USCXML_ERR_OK;
 }
 static int exec_cancel(const uscxml_ctx* c, const char* sendid, const char* sendidexpr) { return USCXML_ERR_OK; }
-static int exec_script(const uscxml_ctx* c, const char* src, const char* content) { return USCXML_ERR_OK; }
+static int exec_script(const uscxml_ctx* c, const char* src, const char* content) {
+	/* <script>name = expr</script> */
+	char id[32]; int n = 0, err; long x; long* v; const char* q = content;
+	if (!q) return USCXML_ERR_OK;
+	while (*q && isspace((unsigned char)*q)) q++;
+	while ((isalnum((unsigned char)*q) || *q == '_') && n < 31) id[n++] = *q++;
+	id[n] = 0;
+	while (*q && isspace((unsigned char)*q)) q++;
+	if (*q != '=' || q[1] == '=') return err_exec();
+	v = var(id, 0); if (!v) return err_exec();
+	x = eval(q + 1, &err); if (err) return err_exec();
+	*v = x; return USCXML_ERR_OK;
+}
 static int do_invoke(const uscxml_ctx* c, const uscxml_state* s, const uscxml_elem_invoke* inv, unsigned char uninvoke) { return USCXML_ERR_OK; }
-static int fe_init(const uscxml_ctx* c, const uscxml_elem_foreach* f) { return USCXML_ERR_FOREACH_DONE; }
-static int fe_next(const uscxml_ctx* c, const uscxml_elem_foreach* f) { return USCXML_ERR_FOREACH_DONE; }
+static int fe_slot(const void* f) { int i; for (i = 0; i < nfes; i++) if (fes[i].f == f) return i; if (nfes < 64) { fes[nfes].f = f; return nfes++; } return -1; }
+static int fe_init(const uscxml_ctx* c, const uscxml_elem_foreach* f) {
+	int i, k = fe_slot(f);
+	if (k < 0 || !f->array || !f->item) return err_exec();
+	for (i = 0; i < narrs; i++) if (strcmp(arrs[i].name, f->array) == 0) { fes[k].arr = i; fes[k].cur = 0; return USCXML_ERR_OK; }
+	return err_exec();
+}
+static int fe_next(const uscxml_ctx* c, const uscxml_elem_foreach* f) {
+	int k = fe_slot(f); long* v;
+	if (k < 0 || fes[k].cur >= arrs[fes[k].arr].n) return USCXML_ERR_FOREACH_DONE;
+	v = var(f->item, 1); if (v) *v = arrs[fes[k].arr].v[fes[k].cur];
+	if (f->index) { v = var(f->index, 1); if (v) *v = fes[k].cur + 1; }
+	fes[k].cur++;
+	return USCXML_ERR_OK;
+}
 static int fe_done(const uscxml_ctx* c, const uscxml_elem_foreach* f) { return USCXML_ERR_OK; }
 
 static void print_set(const char* tag, const unsigned char* set) {
